@@ -30,6 +30,39 @@ package mqtt
 //@ func itIsPubRel() bool {
 //@ 	return itRead() && itType() == packetPubRel && evCount("(*pktPubRel).Parse") == 1 && evRet[error]("(*pktPubRel).Parse", 0, 1) == nil
 //@ }
+//@ // malformed input ends the loop: an iteration continues only for a known packet type whose
+//@ // parser accepted the packet
+//@ func itParsedOK() bool {
+//@ 	t := itType()
+//@ 	if t == packetConnAck {
+//@ 		return evCount("(*pktConnAck).Parse") == 1 && evRet[error]("(*pktConnAck).Parse", 0, 1) == nil
+//@ 	}
+//@ 	if t == packetPublish {
+//@ 		return evCount("(*pktPublish).Parse") == 1 && evRet[error]("(*pktPublish).Parse", 0, 1) == nil
+//@ 	}
+//@ 	if t == packetPubAck {
+//@ 		return evCount("(*pktPubAck).Parse") == 1 && evRet[error]("(*pktPubAck).Parse", 0, 1) == nil
+//@ 	}
+//@ 	if t == packetPubRec {
+//@ 		return evCount("(*pktPubRec).Parse") == 1 && evRet[error]("(*pktPubRec).Parse", 0, 1) == nil
+//@ 	}
+//@ 	if t == packetPubRel {
+//@ 		return evCount("(*pktPubRel).Parse") == 1 && evRet[error]("(*pktPubRel).Parse", 0, 1) == nil
+//@ 	}
+//@ 	if t == packetPubComp {
+//@ 		return evCount("(*pktPubComp).Parse") == 1 && evRet[error]("(*pktPubComp).Parse", 0, 1) == nil
+//@ 	}
+//@ 	if t == packetSubAck {
+//@ 		return evCount("(*pktSubAck).Parse") == 1 && evRet[error]("(*pktSubAck).Parse", 0, 1) == nil
+//@ 	}
+//@ 	if t == packetUnsubAck {
+//@ 		return evCount("(*pktUnsubAck).Parse") == 1 && evRet[error]("(*pktUnsubAck).Parse", 0, 1) == nil
+//@ 	}
+//@ 	if t == packetPingResp {
+//@ 		return evCount("(*pktPingResp).Parse") == 1 && evRet[error]("(*pktPingResp).Parse", 0, 1) == nil
+//@ 	}
+//@ 	return false
+//@ }
 //@ func served() int  { return evCount("Handler.Serve") }
 //@ func written() int { return evCount("(*BaseClient).write") }
 //@
@@ -72,7 +105,9 @@ package mqtt
 //@   ensures[C04] exit_counts: served() <= 1 && written() <= 1
 //@   ensures[C04] exit_order: served() == 1 && written() == 1 && itIsPublish() ==> evIndex("Handler.Serve", 0) < evIndex("(*BaseClient).write", 0)
 //@   ensures[C04] exit_qos2: itIsPublish() && itPublish().Message.QoS == QoS2 ==> served() == 0
-//@   loop 1 iter[C04] read: itRead()
+//@   loop 1 iter[C04,C06] read: itRead()
+//@   loop 1 iter[C06] parsed: itParsedOK()
+//@   loop 1 iter[C06] writes_ok: written() == 1 ==> evRet[error]("(*BaseClient).write", 0, 0) == nil
 //@   loop 1 iter[C04] pub_serve: itIsPublish() && itPublish().Message.QoS <= QoS1 ==>
 //@        served() == ite(c.handler != nil, 1, 0) && (served() == 1 ==> evArg[*Message]("Handler.Serve", 0, 1) == itPublish().Message) && sbSame(subBuffer, sb0)
 //@   loop 1 iter[C04] qos0: itIsPublish() && itPublish().Message.QoS == QoS0 ==> written() == 0
